@@ -434,7 +434,11 @@ def rules(tier):
             # C17-da: the -o word list opened for appending
             ('C17.R21', _shared_rule('plumbing', 'writers_truncate')),
             # the budget threading of the emitters PRINCE-LING uses
-            ('C17.R22', _shared_rule('plumbing', 'limit_exhausted_leaves'))] + _loader_bundle() + []
+            ('C17.R22', _shared_rule('plumbing', 'limit_exhausted_leaves')),
+            # C17-ea: the initial heap is a list sorted by base_prob
+            ('C17.R23', _shared_rule('c01', 'r2_heap_ownership')),
+            # C17-eb: prince_ling wraps print_guess with a de-duplicating filter
+            ('C17.R24', _shared_rule('plumbing', 'who_may'))] + _loader_bundle() + []
 
 
 META = {
